@@ -53,7 +53,7 @@ type C07Op struct {
 	Symlinks bool `json:"symlinks,omitempty"`
 	// NoIdent (full pass): the identifier set handed over is empty (what `coca analysis` does by default)
 	NoIdent bool `json:"no_ident,omitempty"`
-	// DirName: the scanned directory lies below a directory named 1 "build", 2 "target", 3 "out/production"
+	// DirName: the scanned directory lies below a directory named 1 "build", 2 "target", 3 "out/production", 4 "my project (v2)", 5 a Cyrillic name, 6 "a b/-c d", 7 ".jenkins/workspace" (a hidden ancestor), 8 a name in decomposed Unicode (NFD)
 	// (a CI checkout location such as /home/ci/build/<repo>): names above the project are not part of it
 	DirName int `json:"dir_name,omitempty"`
 }
@@ -183,7 +183,7 @@ func genHistory(t *tape.Tape, nFiles int, thorough bool, passes []string) []C07P
 				}
 				op.Symlinks = t.Bool(1, 6)
 				if t.Bool(1, 6) {
-					op.DirName = t.Int(1, 3)
+					op.DirName = t.Int(1, 9)
 				}
 				op.NoIdent = op.Pass == "full" && t.Bool(1, 4)
 				if (op.Pass == "bs" || op.Pass == "api") && t.Bool(1, 5) {
@@ -288,13 +288,15 @@ func (C07) Assumptions() []string {
 // ---- execution ----
 
 type c07run struct {
-	symlinks bool // place() creates symbolic links to files in a side store
-	dirName  int  // newDir() nests the directory below build/, target/, out/production/
-	ctx      *sim.RunCtx
-	sc       *C07Scenario
-	out      *sim.Outcome
-	paths    map[string]string // materialised absolute path -> logical "<ID>"
-	seq      int
+	symlinks     bool              // place() creates symbolic links to files in a side store
+	placed       map[string]string // dir|file id -> first path placed there
+	hardlinkDups bool
+	dirName      int // newDir() nests the directory below build/, target/, out/production/
+	ctx          *sim.RunCtx
+	sc           *C07Scenario
+	out          *sim.Outcome
+	paths        map[string]string // materialised absolute path -> logical "<ID>"
+	seq          int
 }
 
 // place writes file fi under a fresh directory entry and returns its path.
@@ -309,6 +311,18 @@ func (r *c07run) place(dir string, pos int, fi int) (string, error) {
 	if err := os.MkdirAll(filepath.Dir(p), 0755); err != nil {
 		return "", err
 	}
+	if first, ok := r.placed[dir+"|"+f.ID]; ok && r.hardlinkDups {
+		// the same file delivered twice: the second copy is a hard link of the first (cp -al, dedup tools)
+		if err := os.Link(first, p); err == nil {
+			r.out.Faults["duplicate-is-hard-link"]++
+			r.paths[p] = "<" + f.ID + ">"
+			return p, nil
+		}
+	}
+	if r.placed == nil {
+		r.placed = map[string]string{}
+	}
+	r.placed[dir+"|"+f.ID] = p
 	if r.symlinks {
 		r.seq++
 		store := filepath.Join(r.ctx.Dir, "store", fmt.Sprintf("s%d_%s.java", r.seq, f.ID))
@@ -398,8 +412,10 @@ func (r *c07run) addNoise(dir string, n int, level int) {
 
 func (r *c07run) newDir() string {
 	r.seq++
-	parent := []string{"", "build", "target", filepath.Join("out", "production")}[r.dirName%4]
-	if parent != "" {
+	parent := []string{"", "build", "target", filepath.Join("out", "production"), "my project (v2)", "\u043f\u0440\u043e\u0435\u043a\u0442-\u00fc", filepath.Join("a b", "-c d"), filepath.Join(".jenkins", "workspace"), "cafe\u0301-service", "Acme, Inc"}[r.dirName%10]
+	if r.dirName%10 >= 4 {
+		r.out.Faults["path-with-spaces-or-non-ascii"]++
+	} else if parent != "" {
 		r.out.Faults["checkout-below-build-or-target"]++
 	}
 	d := filepath.Join(r.ctx.Dir, parent, fmt.Sprintf("d%d", r.seq))
@@ -859,6 +875,7 @@ func (C07) Run(ctx *sim.RunCtx, data json.RawMessage) (*sim.Outcome, error) {
 			d := delivered{files: files}
 			hist = append(hist, fmt.Sprintf("%s%d", op.Pass, len(files)))
 			r.symlinks = op.Symlinks
+			r.hardlinkDups = op.Symlinks || op.DirName%2 == 1 // drawn values reused: about half of the operations
 			r.dirName = op.DirName
 			switch op.Pass {
 			case "ident", "full":
